@@ -110,6 +110,7 @@ func TestCheck(t *testing.T) {
 	r.Require("l3_stack_profile_instead_of_global", 5)
 	r.Require("l3_stack_dropped_silently", 20)
 	r.Require("l3_stack_encrypted_unlimited", 20)
+	r.Require("l3_stack_profile_drop_due_to_large_response", 2)
 }
 
 // ---------------------------------------------------------------------------
@@ -269,7 +270,7 @@ func layer1Exhaustive(r *vkit.Run) {
 }
 
 func layer1Random(r *vkit.Run) {
-	cases := r.N(3000, 30000)
+	cases := r.N(3000, 100000)
 	st := &l1State{}
 	for i := 0; i < cases; i++ {
 		rng := r.Rand("l1random", i)
@@ -953,7 +954,7 @@ func otherSubnet(g rnd, ip netip.Addr, k int, last bool) netip.Addr {
 // ---- family: logical (timing-independent)
 
 func layer2Logical(r *vkit.Run) {
-	cases := r.N(400, 4000)
+	cases := r.N(400, 12000)
 	for i := 0; i < cases; i++ {
 		guard(r, "backoff-logical", i, func() { logicalCase(r, i) })
 	}
@@ -1106,7 +1107,7 @@ func keyMaskCase(r *vkit.Run, i int, v6 bool, k int) {
 // ---- family: window slides out (timed)
 
 func layer2Window(r *vkit.Run) {
-	cases := r.N(64, 480)
+	cases := r.N(96, 1600)
 	parallel(cases, 8, func(i int) { guard(r, "backoff-window", i, func() { windowCase(r, i) }) })
 }
 
@@ -1148,7 +1149,7 @@ func windowCase(r *vkit.Run, i int) {
 // ---- family: the per-subnet counter entry outlives nothing but backoff_period
 
 func layer2Expiry(r *vkit.Run) {
-	cases := r.N(8, 48)
+	cases := r.N(12, 128)
 	parallel(cases, 8, func(i int) { guard(r, "backoff-expiry", i, func() { expiryCase(r, i) }) })
 }
 
@@ -1182,7 +1183,7 @@ func expiryCase(r *vkit.Run, i int) {
 // ---- family: back-off entry / exit (timed)
 
 func layer2Backoff(r *vkit.Run) {
-	cases := r.N(36, 240)
+	cases := r.N(60, 900)
 	parallel(cases, 8, func(i int) { guard(r, "backoff-backoff", i, func() { backoffCase(r, i) }) })
 }
 
@@ -1344,7 +1345,7 @@ func layer2Concurrent(r *vkit.Run) {
 // ---------------------------------------------------------------------------
 
 func layer3Profile(r *vkit.Run) {
-	cases := r.N(16, 96)
+	cases := r.N(16, 256)
 	parallel(cases, 16, func(i int) { guard(r, "profile-limiter", i, func() { profileCase(r, i) }) })
 }
 
@@ -1644,7 +1645,7 @@ func (l *stackLimiter) CountResponses(ctx context.Context, resp *dns.Msg, ip net
 }
 
 func layer3Stack(r *vkit.Run) {
-	cases := r.N(12, 60)
+	cases := r.N(18, 240)
 	for i := 0; i < cases; i++ {
 		guard(r, "stack", i, func() { stackCase(r, i) })
 	}
@@ -1765,8 +1766,16 @@ func stackCase(r *vkit.Run, i int) {
 	// of the global one (1 s window: judged by interval arithmetic).
 	var evs []span
 	burst := int(rps) + 2
+	profBig := 0
+	if i%4 == 0 {
+		profBig = 2 // the first response is 2 estimates long: 1+2 events of the profile's budget
+	}
 	for j := 0; j < burst; j++ {
+		if j == 0 && profBig > 0 {
+			s.respSize.Store(int64(profBig)*int64(est) + int64(est)/3)
+		}
 		o = send("profile client inside client_subnets", false, pin, dns.TypeA)
+		s.respSize.Store(50)
 		lo, hi := 0, 0
 		for _, e := range evs {
 			if o.a-e.B < int64(time.Second) {
@@ -1777,16 +1786,27 @@ func stackCase(r *vkit.Run, i int) {
 			}
 		}
 		evs = append(evs, span{o.b, o.a})
+		if j == 0 && served(o) {
+			for x := 0; x < profBig; x++ {
+				evs = append(evs, span{o.b, o.a})
+			}
+		}
 		switch {
 		case lo >= int(rps):
 			expect(o, false, "stack:profile-limit", fmt.Sprintf("profile client, query %d with profile rps %d (global %d)", j+1, rps, gn))
 			if silent(o) && j < int(gn) {
 				r.Bucket("l3_stack_profile_instead_of_global", 1) // dropped although the global limit would allow
 			}
+			if profBig > 0 && silent(o) && j < int(rps) {
+				r.Bucket("l3_stack_profile_drop_due_to_large_response", 1)
+			}
 		case hi < int(rps):
 			expect(o, true, "stack:profile-limit", fmt.Sprintf("profile client, query %d with profile rps %d (global %d)", j+1, rps, gn))
 			if served(o) && j >= int(gn) {
 				r.Bucket("l3_stack_profile_instead_of_global", 1) // served although the global limit is used up
+			}
+			if profBig > 0 && j > 0 {
+				r.Bucket("l3_stack_profile_pass_after_large_response", 1)
 			}
 		default:
 			r.Bucket("l3_stack_ambiguous", 1)
@@ -1803,20 +1823,21 @@ func stackCase(r *vkit.Run, i int) {
 		expect(o, j < int(gn), "stack:profile-traffic-counted-globally", "anonymous neighbour (same /24) of the profile client")
 	}
 	// 6. response size weighting through the stack: one query with a response
-	// of 3 estimates uses 1+3 events of the global budget.
+	// of k estimates uses 1+k events of the global budget.
 	big := rand4(g)
-	s.respSize.Store(int64(3*est + 7))
-	o = send("anonymous plain client, large response", false, big, dns.TypeA)
+	k := 1 + (i/2)%3
+	s.respSize.Store(int64(k)*int64(est) + int64(est)/3)
+	o = send(fmt.Sprintf("anonymous plain client, response of %d estimates", k), false, big, dns.TypeA)
 	expect(o, true, "stack:global", "first query of a fresh subnet")
 	s.respSize.Store(50)
-	left := int(gn) - 4
-	for j := 0; j < 2; j++ {
+	left := int(gn) - 1 - k
+	for j := 0; j < max(left, 0)+2; j++ {
 		o = send("anonymous plain client after a large response", false, big, dns.TypeA)
-		expect(o, j < left, "stack:response-weight", fmt.Sprintf("query %d after a response of 3 estimates, global limit %d", j+2, gn))
+		expect(o, j < left, "stack:response-weight", fmt.Sprintf("query %d after a response of %d estimates, global limit %d", j+2, k, gn))
 	}
 
 	if i == 0 {
-		r.Sample(map[string]any{"layer": 3, "family": "stack", "global_limit": gn, "profile_rps": rps, "first_requests": trace[:8], "profile_requests": trace[len(trace)-burst-int(gn)-4:]})
+		r.Sample(map[string]any{"layer": 3, "family": "stack", "global_limit": gn, "profile_rps": rps, "first_requests": trace[:8], "requests": len(trace)})
 	}
 	cls := fmt.Sprintf("L3stack/g%d/rps%d", gn, rps)
 	if stepped {
